@@ -29,26 +29,24 @@ Proof.
     [exact E1 | exact W' | exact U1 | rewrite E1; exact HI | rewrite E1; exact HE].
 Qed.
 
-(* change_page_content on a plain page with a Contents entry, read with the crate's own decoder: the page shows exactly the
-   new content *)
+(* change_page_content on ANY page with a Contents entry, read with the crate's own decoder: the page shows exactly the new
+   content, every other page of the document with a defined content shows what it showed *)
 Theorem cpc_shows_new_content O d page pd c x :
-  doc_wf d -> alloc_ok d -> (d_max_id d < Renumber.U32_MAX)%N ->
+  alloc_ok d -> (d_max_id d < Renumber.U32_MAX)%N ->
   (forall id sd c0, lookup (d_objects d) id = Some (OStream sd c0) -> dict_wf sd) ->
   o_inflate O (o_deflate O c) = c -> o_deflate O c <> [] ->
-  lookup (d_objects d) page = Some (ODict pd) -> plain_contents (d_objects d) pd ->
-  dict_get pd K_Contents = Some x ->
+  get_dictionary (d_objects d) page = Some pd -> dict_get pd K_Contents = Some x ->
   exists d',
     change_page_content O d page c = (d', OOk) /\
     page_content (decode_c09 O) (d_objects d') page = Some c /\
-    (forall q qd, q <> page -> lookup (d_objects d) q = Some (ODict qd) -> plain_contents (d_objects d) qd ->
-                  unshared pd qd ->
-                  page_content (decode_c09 O) (d_objects d') q = page_content (decode_c09 O) (d_objects d) q) /\
+    (forall q b, In q (page_iter d) -> get_object_mut_id (d_objects d) q <> get_object_mut_id (d_objects d) page ->
+                 page_content (decode_c09 O) (d_objects d) q = Some b -> page_content (decode_c09 O) (d_objects d') q = Some b) /\
     d_trailer d' = d_trailer d.
 Proof.
-  intros W A Hmax Wf HI HE L P Ec.
-  destruct (cpc_content (decode_c09 O) O d page pd c x W A Hmax L P Ec) as [d' [sd' [c' [H1 [H2 [H3 [H4 H5]]]]]]].
+  intros A Hmax Wf HI HE Gp Ec.
+  destruct (cpc_content (decode_c09 O) O d page pd c x A Hmax Gp Ec) as [d' [sd' [c' [H1 [H2 [H3 [H4 H5]]]]]]].
   exists d'. split; [exact H1|]. split; [|split; [exact H4 | exact H5]].
-  rewrite H3. f_equal. destruct H2 as [[id [sd [c0 [_ [Ls E]]]]]|[_ E]].
+  rewrite H3. f_equal. destruct H2 as [[id [sd [c0 [_ [_ [Ls E]]]]]]|E].
   - unfold stream_obj in E. inversion E; subst. apply decode_rewritten; [eapply Wf; exact Ls | exact HI | exact HE].
   - unfold new_stream in E. inversion E; subst. apply decode_new_stream.
 Qed.
